@@ -187,7 +187,7 @@ package eval
 //@   loop 2 invariant scanning: ranged(1) == c.roots && 0 <= rangeindex#1 && rangeindex#1 < len(c.roots) && ranged(2) == ptr([]Root, rootDeps(c.roots[rangeindex#1])) && (forall j int :: 0 <= j && j <= rangeindex#2 ==> rootName(ranged(2)[j]) != rootName(c.roots[rangeindex#1]))
 //   -- last pass: the merged list holds every root visited so far (and every element of the current root's list visited so far)
 //@   loop 8 invariant listed: ranged(8) == c.roots && (sorted#2.arr == 0 || sinceEntry(sorted#2)) && (forall i int :: 0 <= i && i <= rangeindex#3 ==> (exists p int :: 0 <= p && p < len(sorted#2) && sorted#2[p] == c.roots[i]))
-//@   loop 9 invariant listed: ranged(8) == c.roots && 0 <= rangeindex#3 && rangeindex#3 < len(c.roots) && (sorted#2.arr == 0 || sinceEntry(sorted#2)) && sinceEntry(ranged(9)) && ranged(9).arr != sorted#2.arr && len(ranged(9)) >= 1 && ranged(9)[len(ranged(9)) - 1] == c.roots[rangeindex#3] && (forall i int :: 0 <= i && i < rangeindex#3 ==> (exists p int :: 0 <= p && p < len(sorted#2) && sorted#2[p] == c.roots[i])) && (forall k int :: 0 <= k && k <= rangeindex#6 ==> (exists p int :: 0 <= p && p < len(sorted#2) && sorted#2[p] == ranged(9)[k]))
+//@   loop 9 invariant listed: ranged(8) == c.roots && 0 <= rangeindex#3 && rangeindex#3 < len(c.roots) && (sorted#2.arr == 0 || sinceEntry(sorted#2)) && sinceEntry(ranged(9)) && ranged(9).arr != sorted#2.arr && len(ranged(9)) >= 1 && ranged(9)[len(ranged(9)) - 1] == c.roots[rangeindex#3] && len(sorted#2) >= prev(8, len(sorted#2)) && (forall q int :: 0 <= q && q < prev(8, len(sorted#2)) ==> sorted#2[q] == prev(8, sorted#2[q])) && (forall k int :: 0 <= k && k <= rangeindex#6 ==> (exists p int :: 0 <= p && p < len(sorted#2) && sorted#2[p] == ranged(9)[k])) && (rangeindex#6 >= len(ranged(9)) - 1 ==> (exists p int :: 0 <= p && p < len(sorted#2) && sorted#2[p] == c.roots[rangeindex#3]))
 //@   loop 10 invariant not.found.yet: !found && ranged(10) == sorted#2 && (forall q int :: 0 <= q && q <= rangeindex#7 ==> rootName(ranged(10)[q]) != rootName(ranged(9)[rangeindex#6]))
 //@   modifies nothing
 
